@@ -256,7 +256,11 @@ func (m *modelL1) stepPropose(x *ophosttypes.MsgProposeOutput, bc blockCtx) step
 		p.failBecause("auth.propose", "propose-by-non-proposer", "C12")
 	}
 	if x.OutputIndex != b.NextOutIdx {
-		p.failBecause("propose.wrong-index", "propose-wrong-index", "C11")
+		owners := []string{"C11"}
+		if o := b.Outputs[x.OutputIndex]; o != nil && m.fin(b, x.OutputIndex, bc.Height, bc.Time) != triNo {
+			owners = append(owners, "C05") // accepting it would replace an output that is (or may be) final
+		}
+		p.failBecause("propose.wrong-index", "propose-wrong-index", owners...)
 	}
 	if b.NextOutIdx > 1 {
 		if prev := b.Outputs[b.NextOutIdx-1]; prev != nil && x.L2BlockNumber <= prev.L2Block {
